@@ -113,9 +113,21 @@ class BoundRoutine(tp.Generic[P, R]):
         return self.call(*bargs, **bkwargs)
 
 
-@compat.cache
 def _get_binding(obj: tp.Callable) -> AbstractBinding:
-    sig = inspection.cached_signature(obj)
+    # An unhashable callable (e.g. an instance of a dataclass with `eq=True`) can't be a
+    #   cache key - it is simply inspected on every request. Classes and generics are
+    #   always hashable, so such an object only ever has its plain signature.
+    if inspection.ishashable(obj):
+        return _get_cached_binding(obj)
+    return _build_binding(inspect.signature(obj))
+
+
+@compat.cache
+def _get_cached_binding(obj: tp.Callable) -> AbstractBinding:
+    return _build_binding(inspection.cached_signature(obj))
+
+
+def _build_binding(sig: inspect.Signature) -> AbstractBinding:
     params = sig.parameters
     binding: BindingT = {}
     has_pos_only = False
